@@ -66,6 +66,13 @@ type OpResult struct {
 	Ticks   uint64
 	Depth   int
 	Overrun string // "ticks" or "depth" when a simulated bound was exceeded
+	// Loaded (getmodule): the module was not in the set before the call and is
+	// in it afterwards, i.e. GetModule read it from the search path.
+	Loaded bool
+	// OnDemand (process, getmodule): source names of the modules and
+	// submodules that the call added to the set by reading them from the
+	// search path, sorted.
+	OnDemand []string
 }
 
 // Result is the outcome of a Spec.
@@ -149,6 +156,37 @@ func errStrings(errs []error) []string {
 	return out
 }
 
+// sourcesOf maps every loaded (sub)module object to the name of its source.
+func sourcesOf(ms *yang.Modules) map[*yang.Module]string {
+	out := map[*yang.Module]string{}
+	for _, set := range []map[string]*yang.Module{ms.Modules, ms.SubModules} {
+		for _, m := range set {
+			if m == nil || out[m] != "" {
+				continue
+			}
+			loc := yang.Source(m) // file:line:col
+			for k := 0; k < 2; k++ {
+				if i := strings.LastIndex(loc, ":"); i >= 0 {
+					loc = loc[:i]
+				}
+			}
+			out[m] = loc
+		}
+	}
+	return out
+}
+
+func onDemand(before map[*yang.Module]string, ms *yang.Modules) []string {
+	var out []string
+	for m, src := range sourcesOf(ms) {
+		if _, ok := before[m]; !ok {
+			out = append(out, src)
+		}
+	}
+	sort.Strings(out)
+	return out
+}
+
 // Exec runs a history on a fresh Modules.
 func Exec(s *Spec) *Result {
 	res := &Result{Rec: maporder.NewRecorder()}
@@ -214,6 +252,7 @@ func Exec(s *Spec) *Result {
 		case "addpath":
 			guard(&r, func() { ms.AddPath(op.Name) })
 		case "process":
+			before := sourcesOf(ms)
 			guard(&r, func() {
 				errs := ms.Process()
 				r.Errs = errStrings(errs)
@@ -221,7 +260,10 @@ func Exec(s *Spec) *Result {
 					r.Dump = dump.Full(ms, true)
 				}
 			})
+			r.OnDemand = onDemand(before, ms)
 		case "getmodule":
+			before := sourcesOf(ms)
+			absent := ms.Modules[op.Name] == nil
 			guard(&r, func() {
 				e, errs := ms.GetModule(op.Name)
 				r.Errs = errStrings(errs)
@@ -232,6 +274,8 @@ func Exec(s *Spec) *Result {
 					}
 				}
 			})
+			r.Loaded = absent && ms.Modules[op.Name] != nil
+			r.OnDemand = onDemand(before, ms)
 		case "query":
 			guard(&r, func() { r.Dump = Query(ms, op.Arg) })
 		default:
